@@ -190,6 +190,12 @@ def decompressLwe (b nl : Nat) (body : List Int) (seedStream : List Nat) : Optio
   (Sampling.vecFillUniform b (nl + 1) body.length seedStream).map
     (fun r => List.zipWith (fun l x => x :: l.drop 1) r.1 body)
 
+/-- **`decompress_lwe` as it is** (layouts/compressed/lwe.rs:124): `assert_eq!(res.lwe_layout(), other.lwe_layout())` compares the
+receiver's LWE dimension `nl` with `LWECompressed::n()`, which reports the ring degree of the body buffer — always 1
+(`VecZnx::alloc(1, 1, size)`) — so the call panics for every LWE dimension other than 1. -/
+def decompressLweRust (b nl : Nat) (body : List Int) (seedStream : List Nat) : Option Col :=
+  if nl ≠ 1 then none else decompressLwe b nl body seedStream
+
 /-- compressing a standard LWE ciphertext: keep coefficient 0 of every limb (and the mask seed) -/
 def lweBodies (ct : Col) : List Int := ct.map (fun l => l.getD 0 0)
 
